@@ -1079,7 +1079,7 @@ int main(int argc, char **argv)
 	setvbuf(stdout, NULL, _IOLBF, 0);
 	__sanitizer_set_death_callback(flush_on_death);
 	signal(SIGPIPE, SIG_IGN);
-	alarm(15);	/* watchdog: a run takes well under a second; a library stuck in a loop is killed instead of hanging the check */
+	alarm(8);	/* watchdog: a run takes well under a second; a library stuck in a loop is killed instead of hanging the check */
 	iv_set_fatal_msg_handler(fatal_handler);
 	for (i = 0; i < MT_MAXT; i++)
 		pthread_cond_init(&sched_cv[i], NULL);
